@@ -1194,6 +1194,14 @@ func (e *SpecEnv) call(n *SCall, hint types.Type) Val {
 		if types.Identical(t.Underlying(), v.T.Underlying()) {
 			return Val{T: t, S: v.S}
 		}
+		if isFloat(t) && isFloat(v.T) {
+			// float64 <-> float32: IEEE rounding to nearest even, as the Go conversion does
+			eb, sb := 11, 53
+			if t.Underlying().(*types.Basic).Kind() == types.Float32 {
+				eb, sb = 8, 24
+			}
+			return Val{T: t, S: fmt.Sprintf("((_ to_fp %d %d) RNE %s)", eb, sb, v.S)}
+		}
 		sfail("conversion %s(%s)", n.Fn, v.T)
 	}
 	if pf := c.eng.pure(e.pkgPath(), n.Fn); pf != nil {
